@@ -7,7 +7,11 @@
    Floats are modelled as exact rationals (regime (b) of DESIGN.md section 3): the single-precision
    rounding of the C++ is NOT modelled; the tie is exact on dyadic inputs and tolerance-based elsewhere.
    The bins (limits + cell lists) are inputs of the spreading model: how the rough legalizer fills them
-   is C16's business.  No proofs in this file. *)
+   is C16's business.  spread_step has NO clamp although the code clamps the coordinate into the bin since
+   the F21 repair (/repo 7b95a91): over Q with non-negative demands the clamp is the identity, so the model
+   follows the arithmetic, not the current source text (the binary32 model SpreadFloat.v has both forms).
+   Totalisations: getq defaults to 0, division by a zero demand sum gives 0 (masked by the hypotheses
+   0 < demand, index in range of the theorems).  No proofs in this file. *)
 From Coq Require Import List ZArith QArith Qround Bool.
 Import ListNotations.
 Require Import CV.Orient CV.FreeSpace.
